@@ -294,7 +294,8 @@ def pPull : TP String := do
   -- answer, 8 = fresh layers verified right after their download
   let cfg : Cfg := { nparts := np, minSize := mn, maxSize := mx, retries := rt, noPrune := npn != 0,
                      fixedChallenge := fx % 2 == 1, fixedEmpty := fx / 2 % 2 == 1,
-                     fixedDup := fx / 4 % 2 == 1, verifyEarly := fx / 8 % 2 == 1 }
+                     fixedDup := fx / 4 % 2 == 1, verifyEarly := fx / 8 % 2 == 1,
+                     verifyBeforeRename := fx / 16 % 2 == 1 }
   expect "univ"
   let univ ← listOf hex
   expect "blobs"
@@ -317,6 +318,58 @@ def pPull : TP String := do
                       partials := ofAssoc Partial.none partials, manifests := mans }
   let reg : Registry := ⟨m, content, realm⟩
   pure (joinWith " || " (runAttempts cfg univ name reg atts st))
+
+/-- pull2 <during|duringCancelB|duringCancelA|atVerify> cfg … (as pull) … x <dig> nameA <n> nameB <n> realm <hex>
+    regA MANIFEST regB MANIFEST content <n> {dig content} A ATTEMPT B ATTEMPT  ->  <outcome A> <outcome B> <store> -/
+def pPull2 : TP String := do
+  let md ← tok
+  let mode ← (match md with
+    | "during" => pure JoinMode.during
+    | "duringCancelB" => pure JoinMode.duringCancelB
+    | "duringCancelA" => pure JoinMode.duringCancelA
+    | "atVerify" => pure JoinMode.atVerify
+    | _ => failure : TP JoinMode)
+  expect "cfg"
+  let np ← nat
+  let mn ← nat
+  let mx ← nat
+  let rt ← nat
+  let fx ← nat
+  let npn ← nat
+  let cfg : Cfg := { nparts := np, minSize := mn, maxSize := mx, retries := rt, noPrune := npn != 0,
+                     fixedChallenge := fx % 2 == 1, fixedEmpty := fx / 2 % 2 == 1,
+                     fixedDup := fx / 4 % 2 == 1, verifyEarly := fx / 8 % 2 == 1,
+                     verifyBeforeRename := fx / 16 % 2 == 1 }
+  expect "univ"
+  let univ ← listOf hex
+  expect "blobs"
+  let blobs ← listOf (do let d ← hex; let c ← hex; pure (d, c))
+  expect "partials"
+  let partials ← listOf pPartial
+  expect "manifests"
+  let mans ← listOf pMFile
+  expect "x"
+  let x ← hex
+  expect "nameA"
+  let nameA ← nat
+  expect "nameB"
+  let nameB ← nat
+  expect "realm"
+  let realm ← hex
+  expect "regA"
+  let mA ← pManifest
+  expect "regB"
+  let mB ← pManifest
+  expect "content"
+  let content ← listOf (do let d ← hex; let c ← hex; pure (d, c))
+  expect "A"
+  let scA ← pAttempt
+  expect "B"
+  let scB ← pAttempt
+  let st : Store := { blobs := ofAssoc none (blobs.map fun (d, c) => (d, some c)),
+                      partials := ofAssoc Partial.none partials, manifests := mans }
+  let (oA, oB, st') := pull2 cfg sha256 mode x nameA ⟨mA, content, realm⟩ scA nameB ⟨mB, content, realm⟩ scB st
+  pure s!"{showOutcome oA} {showOutcome oB} {showStore univ st'}"
 
 def handle (toks : List String) : Option String :=
   match toks with
@@ -374,6 +427,7 @@ def handle (toks : List String) : Option String :=
       let b ← hex
       pure (hexOf (sha256 b))) rest
   | "pull" :: rest => runTP pPull rest
+  | "pull2" :: rest => runTP pPull2 rest
   | _ => none
 
 end Oracle.C03
